@@ -50,6 +50,8 @@ func (Engine) Generate(cfg simkit.RunConfig) (any, bool) {
 		return genReads(cfg, "M"), true
 	case "ryw":
 		return genRYW(cfg, "M"), true
+	case "gc":
+		return genGC(cfg, "M"), true
 	}
 	panic("unknown mode " + cfg.Mode)
 }
@@ -72,6 +74,8 @@ func (Engine) Execute(t *testing.T, cfg simkit.RunConfig, scenario any) *simkit.
 	janitorOK := false
 	drained := false
 	var leftover []string
+	var gcRep *GCReport
+	var truth simkit.Truth
 	s.Run(func() {
 		var err error
 		w, err = newWorld(s, sc)
@@ -106,6 +110,9 @@ func (Engine) Execute(t *testing.T, cfg simkit.RunConfig, scenario any) *simkit.
 			// the writers ended (or died): their leftover locks are met by these reads
 			w.runReads(rr, sc.Clients, "late", sc.Reads.Late, sc.Reads)
 		}
+		if sc.GC != nil {
+			gcRep = w.runGC(sc.GC)
+		}
 		if cfg.Mode == "leftover" {
 			// C06: let the clients' background work drain WITHOUT letting any lock expire
 			// (TTLs are 10 simulated minutes in this mode), then look at the store.
@@ -125,8 +132,14 @@ func (Engine) Execute(t *testing.T, cfg simkit.RunConfig, scenario any) *simkit.
 		if sc.Reads != nil && janitorOK {
 			w.runReads(rr, sc.Clients, "final", sc.Reads.Final, sc.Reads)
 		}
+		truth = simkit.DumpTruth(w.dumper, w.allKeys)
+		if sc.GC != nil && sc.GC.DeleteRange && gcRep != nil && janitorOK {
+			w.runDeleteRange(sc.GC, gcRep)
+		}
 	})
-	truth := simkit.DumpTruth(w.dumper, w.allKeys)
+	if truth == nil {
+		truth = simkit.DumpTruth(w.dumper, w.allKeys)
+	}
 	trace := w.Net.Trace()
 	tso := w.TSO.Snapshot()
 	w.close()
@@ -190,6 +203,13 @@ func (Engine) Execute(t *testing.T, cfg simkit.RunConfig, scenario any) *simkit.
 			}
 			c.checkC01()
 			c.checkC03()
+			if gcRep != nil {
+				c.checkC14(sc.GC, gcRep)
+				res.Stats["c14.audited"] = 1
+				res.Stats["c14.gc-ok"] = b2i(gcRep.GCErr == "")
+				res.Stats["c14.ranges"] = len(gcRep.Ranges)
+				res.Stats["c14.delete-range-done"] = b2i(gcRep.DelDone && gcRep.DelErr == "")
+			}
 			if sc.Reads != nil {
 				c.checkC05(w.Reads, ttlOf(sc))
 				res.Stats["c05.reads"] = len(w.Reads)
@@ -211,6 +231,9 @@ func (Engine) Execute(t *testing.T, cfg simkit.RunConfig, scenario any) *simkit.
 		}
 	}
 	res.Sample = sampleOf(sc, w, res)
+	if gcRep != nil {
+		res.Sample.(map[string]any)["gc"] = map[string]any{"range": [2]string{sc.GC.RangeLo, sc.GC.RangeHi}, "sub_ranges": gcRep.Ranges, "range_err": gcRep.RangeErr, "safe_point": gcRep.SafePoint, "gc_err": gcRep.GCErr, "layout": w.Cl.Describe()}
+	}
 	return res
 }
 
@@ -227,7 +250,7 @@ func b2i(b bool) int {
 // property whose check is running.
 func filterProp(vs []simkit.Violation, prop string) []simkit.Violation {
 	var out []simkit.Violation
-	shared := map[string]bool{"C01": true, "C02": true, "C03": true, "C05": true}
+	shared := map[string]bool{"C01": true, "C02": true, "C03": true, "C05": true, "C14": true}
 	for _, v := range vs {
 		if v.Property == "C01" && shared[prop] {
 			v.Property = prop
